@@ -100,7 +100,8 @@ def default_params(rng, ds, variant):
          "nm": variant.get("nm", "brute"), "em": variant.get("em", "dense"),
          "perp": rng.choice([2.0, 3.0, min(4.0, (n - 1) / 3.0)]), "theta": variant.get("theta", 0.0),
          "maxit": 30, "lr": 0.5, "width": rng.choice([1.0, 2.5]), "ts": rng.choice([1, 2, 3]),
-         "speg": variant.get("speg", 1), "spen": 20, "sq": 0.9, "wd": 10}
+         "speg": variant.get("speg", 1), "spen": 20, "sq": 0.9, "wd": 10,
+         "off": variant.get("off", rng.choice([3, 100, 1000]))}
     return p
 
 
@@ -108,11 +109,14 @@ def default_params(rng, ds, variant):
 def make_case(method, fam, order, entry, back, src, params):
     c = dict(params)
     c.update({"m": method, "fam": fam, "order": order, "entry": entry, "back": back, "src": src})
+    # index sequences handed to hand-written callbacks are shifted (element i is the integer i + off): an integer
+    # data object is then not its own position either
+    c["off"] = params.get("off", 0) if fam in ("U", "Y") else 0
     return c
 
 
 def run_line(i, c):
-    keys = ["m", "fam", "back", "src", "order", "entry", "d", "k", "seed", "nm", "em", "wd", "perp", "theta", "maxit",
+    keys = ["m", "fam", "back", "src", "order", "entry", "off", "d", "k", "seed", "nm", "em", "wd", "perp", "theta", "maxit",
             "lr", "width", "ts", "speg", "spen", "sq"]
     return "RUN id=%d " % i + " ".join("%s=%s" % (k, c[k]) for k in keys if k in c and c[k] != "") + "\n"
 
